@@ -62,6 +62,7 @@ TRANSLATORS = [
     ("tr_data", [PY, os.path.join(TOOLS, "tr_data.py")]),
     ("tr_tables", [PY, os.path.join(TOOLS, "tr_tables.py")]),
     ("tr_pure", [PY, os.path.join(TOOLS, "tr_pure.py")]),
+    ("tr_effects", [PY, os.path.join(TOOLS, "tr_effects.py")]),
     ("tr_shapes", [PY, os.path.join(TOOLS, "tr_shapes.py")]),
     ("tr_unicode", [PY, os.path.join(TOOLS, "tr_unicode.py")]),
 ]
